@@ -1,10 +1,10 @@
 ---- MODULE MC_Introspect ----
 EXTENDS Introspect
 
-cMNames == <<"a", "b">>
+cMNames == <<"a", "Ping">>
 cINames == {"t.A", "t.AB"}
 
-NS == {"a", "b"}
+NS == {"a", "Ping"}
 M(i, o) == [p |-> TRUE, ins |-> i, outs |-> o]
 S(a) == [p |-> TRUE, args |-> a]
 P(s, a, e) == [p |-> TRUE, sig |-> s, access |-> a, emits |-> e]
@@ -16,16 +16,16 @@ D(m, s, p) == [name |-> "-", methods |-> m, signals |-> s, props |-> p]
 
 (* small pool for the history machine *)
 PoolHist == { D(F1("a", M(<<"i">>, <<>>), NoM), F0(NoS), F0(NoP)),
-              D(F2("a", M(<<"as", "(s(yy))">>, <<"a{sv}">>), "b", M(<<>>, <<"i", "i">>), NoM), F1("a", S(<<"s">>), NoS),
-                F2("a", P("i", "write", "false"), "b", P("a{sv}", "readwrite", "invalidates"), NoP)) }
+              D(F2("a", M(<<"as", "(s(yy))">>, <<"a{sv}">>), "Ping", M(<<>>, <<"i", "i">>), NoM), F1("a", S(<<"s">>), NoS),
+                F2("a", P("i", "write", "false"), "Ping", P("a{sv}", "readwrite", "invalidates"), NoP)) }
 
 (* wide space for the single-shot round trip *)
 Sigs == {<<>>, <<"i">>, <<"as", "(s(yy))">>, <<"aa{s(iv)}", "y", "v">>}
 Meths == {F0(NoM)} \cup {F1("a", M(i, o), NoM) : i \in Sigs, o \in Sigs}
-         \cup {F2("a", M(i, <<"s">>), "b", M(<<"y">>, o), NoM) : i \in Sigs, o \in Sigs}
-Sgnls == {F0(NoS), F1("b", S(<<>>), NoS), F2("a", S(<<"i">>), "b", S(<<"as", "(s(yy))">>), NoS)}
+         \cup {F2("a", M(i, <<"s">>), "Ping", M(<<"y">>, o), NoM) : i \in Sigs, o \in Sigs}
+Sgnls == {F0(NoS), F1("Ping", S(<<>>), NoS), F2("a", S(<<"i">>), "Ping", S(<<"as", "(s(yy))">>), NoS)}
 Props == {F0(NoP)} \cup {F1("a", P(s, a, e), NoP) : s \in {"i", "a{sv}"}, a \in {"read", "write", "readwrite"}, e \in {"true", "false", "invalidates"}}
-         \cup {F2("a", P("s", a, "true"), "b", P("(ii)", "read", e), NoP) : a \in {"read", "write", "readwrite"}, e \in {"true", "false", "invalidates"}}
+         \cup {F2("a", P("s", a, "true"), "Ping", P("(ii)", "read", e), NoP) : a \in {"read", "write", "readwrite"}, e \in {"true", "false", "invalidates"}}
 PoolWide == {D(m, s, p) : m \in Meths, s \in Sgnls, p \in Props}
 
 InitWide == \E d \in PoolWide, reg \in BOOLEAN :
